@@ -32,6 +32,11 @@ type Req struct {
 	Method string `json:"method"`
 	Path   string `json:"path"` // becomes URL.Path verbatim (not cleaned)
 	Query  string `json:"query,omitempty"`
+	// Accept: the Accept header ("" = "text/html, application/json", "-" = none). The documents are answered at their
+	// paths whatever representation a client says it prefers.
+	Accept string `json:"accept,omitempty"`
+	// Headers: further request headers ("Name: value") that conditional-request or range machinery would look at
+	Headers []string `json:"headers,omitempty"`
 }
 
 // MWCase configures one middleware directly and sends a few requests through it.
@@ -406,7 +411,18 @@ func newRequest(q Req) *http.Request {
 	r.URL.RawPath = ""
 	r.URL.RawQuery = q.Query
 	r.RequestURI = r.URL.RequestURI()
-	r.Header.Set("Accept", "text/html, application/json")
+	switch q.Accept {
+	case "":
+		r.Header.Set("Accept", "text/html, application/json")
+	case "-":
+	default:
+		r.Header.Set("Accept", q.Accept)
+	}
+	for _, h := range q.Headers {
+		if i := strings.Index(h, ": "); i > 0 {
+			r.Header.Add(h[:i], h[i+2:])
+		}
+	}
 	r.Header.Set("X-Probe", "c20")
 	return r
 }
